@@ -3,6 +3,7 @@ package mc
 import (
 	"context"
 	"fmt"
+	"math"
 	"sort"
 	"strings"
 	"testing"
@@ -282,6 +283,25 @@ func checkSearchConfig(t *testing.T, cfg searchConfig, only *searchQuery) (found
 		if err := v.Delete(ctx, del.ID); err != nil {
 			add(searchQuery{Kind: "exists", Exists: -2}, "delete-failed", cfg.Vault, err.Error())
 			return
+		}
+		// and one whose Create FAILS (a request that cannot be encoded, in its last action): it was never created, so it
+		// must not exist, must not be listed and must not be found; the reference model simply does not contain it
+		refused := storeShape{Blocks: 1, Seqs: 1, Actions: 2}.build()
+		refused.Name = "refused"
+		refused.GroupID = groups[1]
+		refused.State.Status = workflow.Running
+		refused.SubmitTime = baseTime.Add(11 * time.Hour)
+		refused.Blocks[0].Sequences[0].Actions[1].Req = SReq{Arg: "x", F: math.NaN()}
+		if err := v.Create(ctx, refused); err == nil {
+			// the store took it (a store is free to): then it is a live plan like any other
+			model = append(model, modelPlan{id: refused.ID, group: refused.GroupID, name: refused.Name, status: refused.State.Status, submit: refused.SubmitTime})
+			refused = nil
+		}
+		if refused != nil {
+			queries++
+			if ok, err := v.Exists(ctx, refused.ID); ok && err == nil {
+				add(searchQuery{Kind: "exists", Exists: -3}, "exists-wrong", cfg.Vault, "Exists is true for a plan whose Create failed (the plan was never created)")
+			}
 		}
 		unknownID := uuid.MustParse("01890000-0000-7000-8000-00000000dead")
 		qs := searchQueries(len(cfg.Plans))
